@@ -303,6 +303,10 @@ func (s *sshSimulatorService) Handle(ctx context.Context, conn net.Conn) error {
 						}
 
 						payload := decoder.String()
+						if decoder.LastError() != nil {
+							// truncated or malformed payload: nothing more can be decoded
+							break
+						}
 						payloads = append(payloads, payload)
 					}
 
@@ -325,6 +329,10 @@ func (s *sshSimulatorService) Handle(ctx context.Context, conn net.Conn) error {
 						}
 
 						payload := decoder.String()
+						if decoder.LastError() != nil {
+							// truncated or malformed payload: nothing more can be decoded
+							break
+						}
 						payloads = append(payloads, payload)
 					}
 
